@@ -100,6 +100,267 @@ theorem dsepB_iff (E : List (α × α)) (x y : α) (Z : List α) : dsepB E x y Z
     obtain ⟨hw, hnd, _, _⟩ := CG.Paths.paths_sound (sym E) y ((verts E x).length + 1) x [] (by simp) p hp
     exact (blockedB_iff E Z p).mpr (h p hw hnd)
 
+
+/-! ## Extensions: generic path quantifier, reversal, endpoint rule, node sets, minimal separators,
+argument checks.  (Everything above keeps its name and statement.) -/
+
+/-- quantifying a boolean test over the enumerated simple paths = quantifying over all simple paths -/
+theorem pathsAll_iff (E : List (α × α)) (x y : α) (f : List α → Bool) (P : List α → Prop)
+    (h : ∀ p, f p = true ↔ P p) :
+    (CG.Paths.paths (sym E) y ((verts E x).length + 1) x []).all f = true ↔
+      ∀ p, CG.Paths.Walk (sym E) x y p → p.Nodup → P p := by
+  simp only [List.all_eq_true]
+  constructor
+  · intro hall p hw hnd
+    have hlen : p.length ≤ (verts E x).length :=
+      List.Nodup.length_le_of_subset hnd (walk_subset_verts hw)
+    have hmem := CG.Paths.paths_complete (sym E) y ((verts E x).length + 1) x [] p ⟨hw, hnd, by simp, by omega⟩
+    exact (h p).mp (hall p hmem)
+  · intro hall p hp
+    obtain ⟨hw, hnd, _, _⟩ := CG.Paths.paths_sound (sym E) y ((verts E x).length + 1) x [] (by simp) p hp
+    exact (h p).mpr (hall p hw hnd)
+
+/-! ### the conditioning set only matters through membership -/
+
+theorem blocksAt_congr {E : List (α × α)} {Z Z' : List α} (h : ∀ a, a ∈ Z ↔ a ∈ Z') (a b c : α) :
+    BlocksAt E Z a b c ↔ BlocksAt E Z' a b c := by
+  unfold BlocksAt
+  constructor
+  · rintro (⟨h1, h2⟩ | ⟨h1, h2⟩)
+    · exact Or.inl ⟨h1, fun d hd hz => h2 d hd ((h d).mpr hz)⟩
+    · exact Or.inr ⟨h1, (h b).mp h2⟩
+  · rintro (⟨h1, h2⟩ | ⟨h1, h2⟩)
+    · exact Or.inl ⟨h1, fun d hd hz => h2 d hd ((h d).mp hz)⟩
+    · exact Or.inr ⟨h1, (h b).mpr h2⟩
+
+theorem blocked_congr {E : List (α × α)} {Z Z' : List α} (h : ∀ a, a ∈ Z ↔ a ∈ Z') :
+    ∀ p, Blocked E Z p ↔ Blocked E Z' p
+  | [] => by simp [Blocked]
+  | [_] => by simp [Blocked]
+  | [_, _] => by simp [Blocked]
+  | a :: b :: c :: rest => by
+    simp only [Blocked, blocksAt_congr h a b c, blocked_congr h (b :: c :: rest)]
+
+theorem dsep_congr {E : List (α × α)} {Z Z' : List α} (h : ∀ a, a ∈ Z ↔ a ∈ Z') (x y : α) :
+    DSep E x y Z ↔ DSep E x y Z' := by
+  unfold DSep
+  constructor
+  · intro hd p hw hn; exact (blocked_congr h p).mp (hd p hw hn)
+  · intro hd p hw hn; exact (blocked_congr h p).mpr (hd p hw hn)
+
+/-! ### reversal -/
+
+theorem blocksAt_swap {E : List (α × α)} {Z : List α} {a b c : α} (h : BlocksAt E Z a b c) : BlocksAt E Z c b a := by
+  unfold BlocksAt at h ⊢
+  rcases h with ⟨⟨h1, h2⟩, h3⟩ | ⟨h1, h2⟩
+  · exact Or.inl ⟨⟨h2, h1⟩, h3⟩
+  · exact Or.inr ⟨fun h => h1 ⟨h.2, h.1⟩, h2⟩
+
+/-- a path is blocked iff one of its consecutive triples blocks -/
+theorem blocked_iff_exists (E : List (α × α)) (Z : List α) :
+    ∀ p, Blocked E Z p ↔ ∃ l a b c r, p = l ++ a :: b :: c :: r ∧ BlocksAt E Z a b c
+  | [] => by simp [Blocked]
+  | [_] => by
+    simp only [Blocked, false_iff]
+    rintro ⟨l, a, b, c, r, h, _⟩
+    have := congrArg List.length h; simp at this; omega
+  | [_, _] => by
+    simp only [Blocked, false_iff]
+    rintro ⟨l, a, b, c, r, h, _⟩
+    have := congrArg List.length h; simp at this; omega
+  | a :: b :: c :: rest => by
+    simp only [Blocked, blocked_iff_exists E Z (b :: c :: rest)]
+    constructor
+    · rintro (h | ⟨l, a', b', c', r, h, hb⟩)
+      · exact ⟨[], a, b, c, rest, rfl, h⟩
+      · exact ⟨a :: l, a', b', c', r, by rw [h]; rfl, hb⟩
+    · rintro ⟨l, a', b', c', r, h, hb⟩
+      cases l with
+      | nil =>
+        simp only [List.nil_append, List.cons.injEq] at h
+        obtain ⟨rfl, rfl, rfl, rfl⟩ := h
+        exact Or.inl hb
+      | cons x l =>
+        simp only [List.cons_append, List.cons.injEq] at h
+        exact Or.inr ⟨l, a', b', c', r, h.2, hb⟩
+
+theorem blocked_reverse {E : List (α × α)} {Z : List α} {p : List α} (h : Blocked E Z p) :
+    Blocked E Z p.reverse := by
+  obtain ⟨l, a, b, c, r, hp, hb⟩ := (blocked_iff_exists E Z p).mp h
+  refine (blocked_iff_exists E Z p.reverse).mpr ⟨r.reverse, c, b, a, l.reverse, ?_, blocksAt_swap hb⟩
+  subst hp
+  simp
+
+theorem walk_append_edge {E : List (α × α)} {a b c : α} {p : List α} (h : CG.Paths.Walk E a b p)
+    (hbc : CG.EL.Rel E b c) : CG.Paths.Walk E a c (p ++ [c]) := by
+  induction h with
+  | single a => exact .cons hbc (.single c)
+  | cons hr _ ih => exact .cons hr (ih hbc)
+
+theorem sym_symm {E : List (α × α)} {a b : α} (h : CG.EL.Rel (sym E) a b) : CG.EL.Rel (sym E) b a := by
+  unfold CG.EL.Rel at *
+  rcases mem_sym.mp h with h | h
+  · exact mem_sym.mpr (Or.inr h)
+  · exact mem_sym.mpr (Or.inl h)
+
+theorem walk_reverse {E : List (α × α)} {a b : α} {p : List α} (h : CG.Paths.Walk (sym E) a b p) :
+    CG.Paths.Walk (sym E) b a p.reverse := by
+  induction h with
+  | single a => exact .single a
+  | cons hr _ ih =>
+    rw [List.reverse_cons]
+    exact walk_append_edge ih (sym_symm hr)
+
+theorem nodup_reverse {l : List α} (h : l.Nodup) : l.reverse.Nodup := by
+  unfold List.Nodup at *
+  rw [List.pairwise_reverse]
+  exact h.imp (fun h => Ne.symm h)
+
+/-- d-separation is symmetric in its two end nodes -/
+theorem dsep_symm {E : List (α × α)} {x y : α} {Z : List α} (h : DSep E x y Z) : DSep E y x Z := by
+  intro p hw hn
+  have := h p.reverse (walk_reverse hw) (nodup_reverse hn)
+  simpa using blocked_reverse this
+
+theorem walk_head {E : List (α × α)} {a b : α} {p : List α} (h : CG.Paths.Walk E a b p) :
+    ∃ q, p = a :: q := by
+  cases h with
+  | single => exact ⟨[], rfl⟩
+  | cons _ _ => exact ⟨_, rfl⟩
+
+/-! ### endpoint rule
+
+`networkx.d_separated` also accepts conditioning sets that contain an end node.  What it computes there
+(measured exhaustively, not a textbook notion): an end node that is in `Z` blocks every path that *leaves* it
+along an out-edge.  For `x ∉ Z`, `y ∉ Z` this adds nothing (`dsepX_iff_dsep`). -/
+
+def HeadOut (E : List (α × α)) (Z : List α) : List α → Prop
+  | a :: b :: _ => a ∈ Z ∧ Rel E a b
+  | _ => False
+
+def headOutB (E : List (α × α)) (Z : List α) : List α → Bool
+  | a :: b :: _ => decide (a ∈ Z) && decide ((a, b) ∈ E)
+  | _ => false
+
+theorem headOutB_iff (E : List (α × α)) (Z : List α) : ∀ p, headOutB E Z p = true ↔ HeadOut E Z p
+  | [] => by simp [headOutB, HeadOut]
+  | [_] => by simp [headOutB, HeadOut]
+  | a :: b :: _ => by simp [headOutB, HeadOut]
+
+def BlockedX (E : List (α × α)) (Z : List α) (p : List α) : Prop :=
+  Blocked E Z p ∨ HeadOut E Z p ∨ HeadOut E Z p.reverse
+
+def DSepX (E : List (α × α)) (x y : α) (Z : List α) : Prop :=
+  ∀ p, CG.Paths.Walk (sym E) x y p → p.Nodup → BlockedX E Z p
+
+def blockedXB (E : List (α × α)) (Z : List α) (p : List α) : Bool :=
+  blockedB E Z p || headOutB E Z p || headOutB E Z p.reverse
+
+theorem blockedXB_iff (E : List (α × α)) (Z : List α) (p : List α) : blockedXB E Z p = true ↔ BlockedX E Z p := by
+  unfold blockedXB BlockedX
+  simp only [Bool.or_eq_true, blockedB_iff, headOutB_iff, or_assoc]
+
+def dsepXB (E : List (α × α)) (x y : α) (Z : List α) : Bool :=
+  (CG.Paths.paths (sym E) y ((verts E x).length + 1) x []).all (blockedXB E Z)
+
+theorem dsepXB_iff (E : List (α × α)) (x y : α) (Z : List α) : dsepXB E x y Z = true ↔ DSepX E x y Z :=
+  pathsAll_iff E x y _ _ (blockedXB_iff E Z)
+
+theorem headOut_of_walk {E E' : List (α × α)} {Z : List α} {a b : α} {p : List α}
+    (hw : CG.Paths.Walk E' a b p) (h : HeadOut E Z p) : a ∈ Z := by
+  cases hw with
+  | single => simp [HeadOut] at h
+  | cons _ hw' =>
+    obtain ⟨q, rfl⟩ := walk_head hw'
+    exact h.1
+
+theorem dsepX_iff_dsep {E : List (α × α)} {x y : α} {Z : List α} (hx : x ∉ Z) (hy : y ∉ Z) :
+    DSepX E x y Z ↔ DSep E x y Z := by
+  constructor
+  · intro h p hw hn
+    rcases h p hw hn with h' | h' | h'
+    · exact h'
+    · exact absurd (headOut_of_walk hw h') hx
+    · exact absurd (headOut_of_walk (walk_reverse hw) h') hy
+  · intro h p hw hn
+    exact Or.inl (h p hw hn)
+
+theorem dsepXB_eq_dsepB {E : List (α × α)} {x y : α} {Z : List α} (hx : x ∉ Z) (hy : y ∉ Z) :
+    dsepXB E x y Z = dsepB E x y Z := by
+  rw [Bool.eq_iff_iff, dsepXB_iff, dsepB_iff]
+  exact dsepX_iff_dsep hx hy
+
+/-! ### node sets -/
+
+/-- `networkx.d_separated(G, X, Y, Z)` on sets: every `x ∈ X` from every `y ∈ Y` -/
+def dsepSetsB (E : List (α × α)) (X Y Z : List α) : Bool :=
+  X.all fun x => Y.all fun y => dsepXB E x y Z
+
+theorem dsepSetsB_iff (E : List (α × α)) (X Y Z : List α) :
+    dsepSetsB E X Y Z = true ↔ ∀ x ∈ X, ∀ y ∈ Y, DSepX E x y Z := by
+  unfold dsepSetsB
+  simp only [List.all_eq_true, dsepXB_iff]
+
+/-! ### separators and minimal separators between two nodes -/
+
+def isSeparatorB (E : List (α × α)) (x y : α) (Z : List α) : Bool := dsepB E x y Z
+
+/-- what `networkx.is_minimal_d_separator(G, x, y, Z)` decides (3.2.1, measured): `Z` avoids both end nodes,
+    separates them, and no single element can be removed.  The same predicate validates the answer of
+    `minimal_d_separator`. -/
+def isMinimalSepB (E : List (α × α)) (x y : α) (Z : List α) : Bool :=
+  decide (x ∉ Z) && decide (y ∉ Z) && isSeparatorB E x y Z &&
+    Z.all (fun z => !isSeparatorB E x y (Z.filter (fun w => w ≠ z)))
+
+/-! ### acyclicity test and the argument checks of the three public methods -/
+
+def acyclicB (E : List (α × α)) : Bool := E.all (fun e => decide (e.1 ∉ CG.EL.reach E e.2))
+
+theorem acyclicB_iff (E : List (α × α)) : acyclicB E = true ↔ CG.EL.Acyclic (CG.EL.Rel E) := by
+  unfold acyclicB CG.EL.Acyclic
+  simp only [List.all_eq_true, decide_eq_true_eq]
+  constructor
+  · intro h n hn
+    obtain ⟨b, h1, h2⟩ := hn.split
+    exact h (n, b) h1 ((CG.EL.mem_reach_iff E b n).mpr h2)
+  · intro h e he hr
+    exact h e.1 (CG.EL.TC.of_step_rtc (show CG.EL.Rel E e.1 e.2 from he) ((CG.EL.mem_reach_iff E e.2 e.1).mp hr))
+
+/-- exception classes raised by the modelled functions -/
+inductive Err
+  | AssertionError | TypeError | NodeDoesNotExistError
+  deriving DecidableEq, Repr
+
+def Err.name : Err → String
+  | .AssertionError => "AssertionError"
+  | .TypeError => "TypeError"
+  | .NodeDoesNotExistError => "NodeDoesNotExistError"
+
+/-- `CausalGraph.is_dag()`: every edge directed (`fd`, computed by the caller from the edge types) and no
+    directed cycle -/
+def isDag (fd : Bool) (E : List (α × α)) : Bool := fd && acyclicB E
+
+/-- `CausalGraph.is_d_separated` after coercion of its arguments to identifier collections -/
+def isDSeparated (fd : Bool) (nodes : List α) (E : List (α × α)) (X Y Z : List α) : Except Err Bool :=
+  if !isDag fd E then .error .AssertionError
+  else if !((X ++ Y ++ Z).all (fun n => decide (n ∈ nodes))) then .error .AssertionError
+  else .ok (dsepSetsB E X Y Z)
+
+/-- `CausalGraph.is_minimally_d_separated`: `is_minimal_d_separator(...) and self.is_d_separated(...)` -/
+def isMinimallyDSeparated (fd : Bool) (nodes : List α) (E : List (α × α)) (x y : α) (Z : List α) :
+    Except Err Bool :=
+  if !isDag fd E then .error .AssertionError
+  else if !(([x, y] ++ Z).all (fun n => decide (n ∈ nodes))) then .error .AssertionError
+  else if isMinimalSepB E x y Z then isDSeparated fd nodes E [x] [y] Z else .ok false
+
+/-- the checks `CausalGraph.get_d_separation_set` makes before it delegates: DAG, both nodes present, and no
+    edge stored as `(x, y)` -- the reverse orientation `(y, x)` is NOT looked at -/
+def getDSeparationSetPre (fd : Bool) (nodes : List α) (E : List (α × α)) (x y : α) : Except Err Unit :=
+  if !isDag fd E then .error .AssertionError
+  else if !([x, y].all (fun n => decide (n ∈ nodes))) then .error .AssertionError
+  else if (x, y) ∈ E then .error .AssertionError
+  else .ok ()
+
 #print axioms dsepB_iff
 -- chain a → b → c : a ⟂ c | b, not a ⟂ c | ∅ ; collider a → b ← c : a ⟂ c | ∅, not a ⟂ c | b
 #eval (dsepB [(1,2),(2,3)] 1 3 [2], dsepB [(1,2),(2,3)] 1 3 [], dsepB [(1,2),(3,2)] 1 3 [], dsepB [(1,2),(3,2)] 1 3 [2], dsepB [(1,2),(3,2),(2,4)] 1 3 [4])
